@@ -170,6 +170,38 @@ def model_worker(args):
     if opts.get("plan_filter"):
         plan = [p for p in plan if opts["plan_filter"](p)]
     runs = rj.perform(m, defn, theta, x0, plan, rng, (seed * 7919 + idx) % 100000, max_steps=opts.get("max_steps", 200))
+    _validate_runs(res, rj, defn, events, theta, lims, runs, opts, "")
+    if opts.get("extend") and rng.random() < opts["extend"] and "machinery" not in res:
+        # the SAME model object is extended after it has been simulated (add_event / add_transition / add_birth_death)
+        # and simulated again: the later paths must be walks of the extended definition
+        from harness import build
+        from engine import codec, gen
+        proc = rj.extra_event(rng, defn, lims)
+        route = rng.choice([r for r in build.valid_routes(proc) if r != "ODE"])
+        try:
+            _slot, adder, obj = build.api_object(defn.sy, proc, route, codec.render(defn.sy, proc["rate"], rng.randrange(6), rng),
+                                                 style=rng.randrange(6), rng=rng)
+            getattr(m, adder)(obj)
+        except Exception as ex:
+            res["findings"].append({"what": "adding an event to a simulated model raised", "detail": repr(ex)[:300],
+                                    "label": "build"})
+            return res
+        proc = dict(proc, route=route)
+        defn2 = gen.Defn(defn.sy, [], list(defn.procs) + [proc], lims=lims, decl=defn.decl)
+        plan2 = [{"exact": True, "grid": None}, {"exact": False, "grid": None},
+                 {"exact": True, "grid": rng.choice(["list", "array"])}]
+        if opts.get("plan_filter"):
+            plan2 = [p for p in plan2 if opts["plan_filter"](p)]
+        runs2 = rj.perform(m, defn2, theta, x0, plan2, rng, (seed * 7919 + idx + 50000) % 100000,
+                           max_steps=opts.get("max_steps", 200))
+        for r in runs2:
+            r["plan"]["after_add"] = adder + ":" + route
+        res["extended"] = {"route": route, "adder": adder, "event": defn2.describe()["procs"][-1]}
+        _validate_runs(res, rj, defn2, events + [proc], theta, lims, runs2, opts, "after-add:")
+    return res
+
+
+def _validate_runs(res, rj, defn, events, theta, lims, runs, opts, tag):
     traces, meta = [], []
     for r in runs:
         res["runs"] += 1
@@ -200,7 +232,7 @@ def model_worker(args):
         except tlc.TLCError as ex:
             res["machinery"] = str(ex)
             return res
-        res["states"] = tres.distinct or 0
+        res["states"] += tres.distinct or 0
         if tres.invariant_violated:
             res["rejected"].append({"tid": 0, "label": "invariant:" + tres.invariant_violated,
                                     "detail": tres.out[-1500:], "meta": None})
@@ -213,8 +245,10 @@ def model_worker(args):
                 ev = tr["events"][reached - 1] if 1 <= reached <= len(tr["events"]) else {}
                 res["rejected"].append({"tid": tid, "label": label_failure(ev, defn, lims), "at": reached,
                                         "event": ev, "prev": tr["events"][reached - 2] if reached >= 2 else None,
-                                        "meta": meta[tid - 1], "exact": tr["exact"]})
-        res["sample"] = {"run": meta[0], "first_events": traces[0]["events"][:3]}
+                                        "meta": meta[tid - 1], "exact": tr["exact"],
+                                        "definition": defn.describe() if tag else None})
+        if not tag:
+            res["sample"] = {"run": meta[0], "first_events": traces[0]["events"][:3]}
     finally:
         shutil.rmtree(workdir, ignore_errors=True)
     return res
